@@ -2,7 +2,7 @@
    argument tokens in, an outcome and result tokens out.  All calls into the
    models are made here, in Gallina; the hand-written OCaml only tokenises. *)
 From Coq Require Import String Ascii.
-From Dryoc Require Import Lib.Outcome Impl.Blake2b Impl.Kdf Impl.Argon2 Impl.Cores Impl.Poly1305 Impl.Hashes Impl.SecretBox Impl.SecretStream Impl.Scalarmult Impl.PwhashStr Impl.Serde Impl.Rng Impl.Sign Impl.Protected Impl.TypeState.
+From Dryoc Require Import Lib.Outcome Impl.Blake2b Impl.Kdf Impl.Argon2 Impl.Cores Impl.Poly1305 Impl.Hashes Impl.SecretBox Impl.Box Impl.SecretStream Impl.Scalarmult Impl.PwhashStr Impl.Serde Impl.Rng Impl.Sign Impl.Protected Impl.TypeState.
 Open Scope Z_scope.
 
 Inductive tok :=
@@ -121,6 +121,14 @@ Definition dispatch (op : string) (args : list tok) : option (outcome (list tok)
     match args with [TB c; TB n; TB k] => Some (out_open (SecretBoxImpl.open_easy_inplace_c c n k)) | _ => None end
   else if String.eqb op "secretbox.open_detached_inplace" then
     match args with [TB d; TB mac; TB n; TB k] => Some (out_open (SecretBoxImpl.open_detached_inplace_c d mac n k)) | _ => None end
+  else if String.eqb op "box.easy" then
+    match args with [TB cbuf; TB m; TB n; TB pk; TB sk] => Some (out1 (BoxImpl.easy cbuf m n pk sk)) | _ => None end
+  else if String.eqb op "box.open_easy" then
+    match args with [TB mbuf; TB c; TB n; TB pk; TB sk] => Some (out_open (BoxImpl.open_easy mbuf c n pk sk)) | _ => None end
+  else if String.eqb op "box.seal" then
+    match args with [TB cbuf; TB m; TB rpk; TB esk] => Some (out1 (BoxImpl.seal cbuf m rpk esk)) | _ => None end
+  else if String.eqb op "box.seal_open" then
+    match args with [TB mbuf; TB c; TB rpk; TB rsk] => Some (out_open (BoxImpl.seal_open mbuf c rpk rsk)) | _ => None end
   else if String.eqb op "stream.history" then
     match args with
     | [TB kp; TB np; TB kl; TB nl; TL steps] =>
